@@ -21,10 +21,14 @@ namespace Gms.PhysKeys
 open Gms.Sql Gms.Rel
 
 /-- Kind of a column: `raw` (compared as stored), `ci` (text under an `_ai_ci` collation), `num`
-(numeric key: INT / BIGINT UNSIGNED / DECIMAL / DOUBLE, compared by numeric value). -/
+(numeric key that can hold fractions: DECIMAL / DOUBLE) and `numZ` (integral numeric key: INT /
+BIGINT UNSIGNED); numeric keys of either kind are compared by numeric value. -/
 inductive KeyKind where
-  | raw | ci | num
+  | raw | ci | num | numZ
   deriving DecidableEq, Repr, Inhabited
+
+def KeyKind.isNum : KeyKind → Bool
+  | .num => true | .numZ => true | _ => false
 
 /-- The upper-case Latin-1 letters of the alphabet with their base letter. -/
 def latin1Base : List (Nat × Nat) :=
@@ -101,6 +105,8 @@ def normValue : KeyKind → Value → Option Value
   | .ci, .int _ => none
   | .num, .int i => some (.int (i * 1000))
   | .num, .str b => (parseDec b).map Value.int
+  | .numZ, .int i => some (.int (i * 1000))
+  | .numZ, .str _ => none
 
 def normRow : List KeyKind → Row → Option Row
   | [], [] => some []
@@ -123,7 +129,7 @@ def normDb : List (List KeyKind) → Db → Option Db
 
 /-- Column types after normalisation: a numeric key is an integer. -/
 def normTys (ks : List KeyKind) (tys : List Ty) : List Ty :=
-  (ks.zip tys).map fun p => if p.1 == .num then .int else p.2
+  (ks.zip tys).map fun p => if p.1.isNum then .int else p.2
 
 /-- Two stored key values are equal as join keys. -/
 def keyEq (k : KeyKind) (a b : Value) : Bool :=
